@@ -79,8 +79,8 @@ Lemma lines_val_join ls : lines_val ls = join [sp] ls.
 Proof. destruct ls as [|l r]; [reflexivity|apply add_cont_join]. Qed.
 Lemma view_hdr_snoc hs h : view_hdr (hs ++ [h]) = aset (lower (hk h)) (field_val h) (view_hdr hs).
 Proof. unfold view_hdr. rewrite fold_left_app. reflexivity. Qed.
-Lemma view_id_snoc hd ft sq bl og h :
-  view_id (mkarec (hd ++ [h]) ft sq bl og) = acc_step (view_id (mkarec hd ft sq bl og)) h.
+Lemma view_id_snoc hd ft sq bl og fe h :
+  view_id (mkarec (hd ++ [h]) ft sq bl og fe) = acc_step (view_id (mkarec hd ft sq bl og fe)) h.
 Proof. unfold view_id. cbn [ahdr]. rewrite fold_left_app. reflexivity. Qed.
 
 Definition id_of_hdr (a : list (str * hv)) : option str :=
@@ -115,9 +115,9 @@ Lemma header_attrs_spec :
                              end)
   /\ (forall V p, sub_val V p = HA (aset (lower (fst p)) (HS (join [sp] (snd p))) [(k_id, V)]))
   /\ (forall r, forallb wf_hfield (ahdr r) = true -> view_id r = id_of_hdr (view_hdr (ahdr r)))
-  /\ (forall excl r, rhdr (view_rec excl r) = adel k_reference (view_hdr (ahdr r))).
+  /\ (forall excl r, afeatures r = true -> rhdr (view_rec excl r) = adel k_reference (view_hdr (ahdr r))).
 Proof.
-  split; [exact view_hdr_snoc|]. split; [reflexivity|]. split; [reflexivity|]. split; [|split; [|split; [|reflexivity]]].
+  split; [exact view_hdr_snoc|]. split; [reflexivity|]. split; [reflexivity|]. split; [|split; [|split; [|intros excl r E; unfold view_rec; cbn [rhdr]; rewrite E, andb_false_r; reflexivity]]].
   - intros h. unfold main_val. destruct (hlines h); [reflexivity|apply add_cont_join].
   - intros V p. unfold sub_val. now rewrite lines_val_join.
   - intros r W. apply id_from_accession. exact W.
@@ -233,7 +233,7 @@ Lemma pending_state excl hd fs1 f k2 : mem k_fts excl = false -> forallb wf_hfie
     /\ mode sc = PFts /\ fttype sc = Some (akey f) /\ locs sc = Some (print (aloc f)).
 Proof.
   intros He Wh W1 Wf.
-  destruct (table_steps excl (mkarec hd fs1 [] false true) k2 Wh (wf_afeat_all_pre _ W1) (fun _ => W1)) as (F & s2 & S2 & M2 & _ & _ & _ & _ & P2).
+  destruct (table_steps excl (mkarec hd fs1 [] false true true) k2 Wh (wf_afeat_all_pre _ W1) (fun _ => W1)) as (F & s2 & S2 & M2 & _ & _ & _ & _ & P2).
   cbn [ahdr afts] in F, S2, P2. rewrite He in P2. destruct P2 as (s3 & Fl & _ & Ht & Hfr).
   destruct (feature_pre excl He f s2 s3 M2 Fl Ht Hfr Wf) as (Ff & sc & Sc & Mc & _ & _ & Et & El & _).
   split.
@@ -282,7 +282,8 @@ Proof. intros F S. rewrite run_lines_steps by exact F. now rewrite S. Qed.
 Lemma bad_record_lines excl r rest k2 acc k : err_rec excl r = Some k -> run_lines excl (render_rec r ++ rest) (st0 k2) acc = RErr k.
 Proof.
   unfold err_rec. destruct (mem k_fts excl) eqn:He; [discriminate|]. cbn [orb].
-  destruct (forallb wf_hfield (ahdr r)) eqn:Wh; [|discriminate]. cbn [negb]. unfold render_rec.
+  destruct (forallb wf_hfield (ahdr r)) eqn:Wh; [|discriminate]. cbn [negb orb].
+  destruct (afeatures r) eqn:Ef; [|discriminate]. cbn [negb]. unfold render_rec. rewrite Ef.
   destruct (aorigin r) eqn:Eo.
   - destruct (strand_scan (afts r)) eqn:Sc; [|discriminate]. intros K. inversion K; subst k. clear K.
     destruct (strand_scan_split _ Sc) as (fs1 & f & fs2 & E & W1 & Wf & Hone & W2). rewrite E.
@@ -299,7 +300,7 @@ Proof.
         cbn [flat_map]. rewrite E2. eexists. eexists. split; [reflexivity|]. split; assumption. }
     destruct N as (l & more & EN & O & B).
     rewrite flat_map_app. cbn [flat_map].
-    replace (flat_map render_hfield (ahdr r) ++ [feat_header] ++ (flat_map render_feat fs1 ++ render_feat f ++ flat_map render_feat fs2) ++
+    replace (flat_map render_hfield (ahdr r) ++ ([feat_header] ++ flat_map render_feat fs1 ++ render_feat f ++ flat_map render_feat fs2) ++
              ([origin_line] ++ render_origin (aseq r)) ++ [sl2] ++ (if ablank r then [[]] else []))
       with ((flat_map render_hfield (ahdr r) ++ [feat_header] ++ flat_map render_feat fs1 ++ render_feat f) ++
             (flat_map render_feat fs2 ++ [origin_line] ++ render_origin (aseq r)) ++ [sl2] ++ (if ablank r then [[]] else []))
@@ -310,12 +311,12 @@ Proof.
   - destruct (negb (is_nil (afts r)) && forallb wf_afeat (afts r)) eqn:Wn; [|discriminate]. intros K. inversion K; subst k. clear K.
     apply andb_prop in Wn. destruct Wn as [Wn Wa].
     assert (Hne : afts r <> []) by (destruct (afts r); [discriminate Wn|discriminate]).
-    destruct (exists_last Hne) as (l & x & Ef). rewrite Ef in Wa |- *.
+    destruct (exists_last Hne) as (l & x & Efl). rewrite Efl in Wa |- *.
     rewrite forallb_app in Wa. apply andb_prop in Wa. destruct Wa as [W1 Wf]. cbn [forallb] in Wf. rewrite andb_true_r in Wf.
     unfold wf_afeat in Wf. apply andb_prop in Wf. destruct Wf as [Wf _].
     destruct (pending_state excl (ahdr r) l x k2 He Wh W1 Wf) as (F & sc & S & Mc & Et & El).
     rewrite flat_map_app. cbn [flat_map]. rewrite app_nil_r.
-    replace (flat_map render_hfield (ahdr r) ++ [feat_header] ++ (flat_map render_feat l ++ render_feat x) ++ [] ++ [sl2] ++ (if ablank r then [[]] else []))
+    replace (flat_map render_hfield (ahdr r) ++ ([feat_header] ++ flat_map render_feat l ++ render_feat x) ++ [] ++ [sl2] ++ (if ablank r then [[]] else []))
       with ((flat_map render_hfield (ahdr r) ++ [feat_header] ++ flat_map render_feat l ++ render_feat x) ++ [sl2] ++ (if ablank r then [[]] else []))
       by (rewrite <- !app_assoc; reflexivity).
     set (P := flat_map render_hfield (ahdr r) ++ [feat_header] ++ flat_map render_feat l ++ render_feat x) in *.
@@ -361,6 +362,7 @@ Lemma err_rec_spec excl r k : err_rec excl r = Some k ->
       \/ k = AssertionError /\ aorigin r = false /\ afts r <> [] /\ forallb wf_afeat (afts r) = true).
 Proof.
   unfold err_rec. destruct (mem k_fts excl); [discriminate|]. destruct (forallb wf_hfield (ahdr r)); [|discriminate]. cbn [orb negb].
+  destruct (afeatures r); [|discriminate]. cbn [negb].
   intros H. split; [reflexivity|]. split; [reflexivity|]. destruct (aorigin r).
   - destruct (strand_scan (afts r)) eqn:S; [|discriminate]. inversion H. left. split; [reflexivity|]. split; [reflexivity|].
     apply strand_scan_split. exact S.
@@ -381,10 +383,10 @@ Qed.
 Definition ex_mixed : list arec :=
   [mkarec box_hdr [mkafeat (d "gene") (LRange false (d "1") false (d "9")) [] [];
                    mkafeat (d "CDS") (LJoin [LRange false (d "1") false (d "5"); LCompl (LRange false (d "7") false (d "10"))]) [8%nat] [QFlag (d "pseudo")];
-                   mkafeat (d "exon") (LRange false (d "2") false (d "3")) [] []] (d "acgtacgtacgt") false true].
+                   mkafeat (d "exon") (LRange false (d "2") false (d "3")) [] []] (d "acgtacgtacgt") false true true].
 Definition ex_noorigin : list arec :=
-  [mkarec box_hdr [] (d "acgt") false true;
-   mkarec box_hdr [mkafeat (d "gene") (LRange false (d "1") false (d "9")) [] []] [] false false].
+  [mkarec box_hdr [] (d "acgt") false true true;
+   mkarec box_hdr [mkafeat (d "gene") (LRange false (d "1") false (d "9")) [] []] [] false false true].
 Lemma ex_errors :
   err_class [] ex_mixed = Some ValueError /\ no_nl ex_mixed = true /\ iter_genbank [] (render_gb ex_mixed) = RErr ValueError
   /\ wf_C10 [k_fts] ex_mixed = true
@@ -568,4 +570,13 @@ Lemma ex_quotes :
   wf_qual (QText (d "note") [unhex (bs "73617920222268692222206e6f77"%bs)]) = true
   /\ wf_qual (QText (d "note") [unhex (bs "736179202222686922222222"%bs)]) = false
   /\ strip_char dq (unhex (bs "22736179202222686922222222"%bs)) = unhex (bs "7361792022226869"%bs).
+Proof. vm_compute. repeat split; reflexivity. Qed.
+
+Definition ex_nofeatures : list arec := [mkarec box_hdr [] (d "acgtacgtacgt") false true false].
+Lemma ex_nofeat :
+  wf_C10 [] ex_nofeatures = true
+  /\ iter_genbank [] (render_gb ex_nofeatures) = ROk (view [] ex_nofeatures)
+  /\ map (fun r => (rid r, rseq r, rfts r)) (view [] ex_nofeatures) = [(bs "AB000001"%bs, [], None)]
+  /\ map (fun r => aget k_origin (rhdr r)) (view [] ex_nofeatures)
+     = [Some (HA [(k_id, HS []); (bs "1 ac"%bs, HS (bs "acgtacgtac gt"%bs))])].
 Proof. vm_compute. repeat split; reflexivity. Qed.
